@@ -13,6 +13,7 @@ import (
 	"path/filepath"
 	"sort"
 	"strings"
+	"sync/atomic"
 	"testing"
 	"testing/synctest"
 
@@ -253,17 +254,18 @@ func c17Sched(t *testing.T, c c17Case, files [][]rdbgen.Item, ch *seqx.Chooser) 
 		ipipe := make(chan *rdb.BinEntry)
 		opipe := make(chan string)
 		cmd := &CmdDecode{}
-		exited := 0
+		var exitedN int32
 		for i := 0; i < c.Parallel; i++ {
 			go func() {
+				defer atomic.AddInt32(&exitedN, 1) // also when the worker ends through the exit hook
 				cmd.decoderMain(ipipe, opipe)
-				exited++
 			}()
 		}
+		exitedNow := func() int { return int(atomic.LoadInt32(&exitedN)) }
 		fed, closed := 0, false
 		for step := 0; step < 4*len(entries)+8; step++ {
 			synctest.Wait()
-			if closed && exited == c.Parallel {
+			if closed && exitedNow() == c.Parallel {
 				break
 			}
 			switch ch.Choose(2) {
@@ -292,9 +294,9 @@ func c17Sched(t *testing.T, c c17Case, files [][]rdbgen.Item, ch *seqx.Chooser) 
 			}
 		}
 		// finish: feed the rest, close, drain everything
-		for fed < len(entries) || !closed || exited < c.Parallel {
+		for guard := 0; (fed < len(entries) || !closed || exitedNow() < c.Parallel) && guard < 10000; guard++ {
 			synctest.Wait()
-			if exited == c.Parallel && closed {
+			if exitedNow() == c.Parallel && (closed || aborted) {
 				break
 			}
 			select {
